@@ -370,7 +370,7 @@ def reply_setup(c, self_):
     return resp, rope, hdr, frag_len, auth_len
 
 
-@REG.contract("dpapi_ng._rpc._client.RpcClient._process_response", props=["C16", "C13", "C15"])
+@REG.contract("dpapi_ng._rpc._client.RpcClient._process_response", props=["C16", "C13"])
 def process_response(c):
     """C16: on an authenticated connection with a sealed request, a normal return hands back the plaintext that
     unwrap() produced for a partition header | body | trailer | signature of the WHOLE reply; a reply without a
@@ -638,6 +638,10 @@ def _send_pdu_contract(flavour):
         object decoded from STREAM[:16] - whatever the segmentation; a stream that ends early is an error."""
         from pyvc.values import ClassRef
 
+        if not c.verifying:
+            if c.ctx.ghost.get("hs") is not None:
+                return bind_send_monitor(c, c.param("pdu"), c.param("resp_type").cls.name)
+            c.inline_instead()
         self_ = c.param("self", sync_client() if flavour == "sync" else async_client())
         pdu = SObj(cls(c, "Request"), {})
         c.param("pdu", T.const(pdu))
@@ -685,3 +689,218 @@ def _send_pdu_contract(flavour):
 
 REG.contract("dpapi_ng._rpc._client.SyncRpcClient._send_pdu", props=["C14"])(_send_pdu_contract("sync"))
 REG.contract("dpapi_ng._rpc._client.AsyncRpcClient._send_pdu", props=["C14"])(_send_pdu_contract("async"))
+
+
+# ================================================================================================ C15: bind / authentication handshake
+# Ghost monitor (typestate) kept in ctx.ghost["hs"]:
+#   last_out   token most recently produced by the provider (bytes value) or None
+#   sent       whether last_out has been put on the wire (bool / z3 Bool)
+#   last_reply the most recent bind_ack / alter_context_resp object, or None before the first reply
+#   n_sent     number of PDUs sent so far (0: next must be a Bind; >0: next must be an AlterContext)
+#   acks_sign  conjunction of "server advertised PFC_SUPPORT_HEADER_SIGN" over all replies so far
+REG.externs["concurrent.futures.ThreadPoolExecutor"] = lambda I, fn, a, k: SRef(fresh_ref("executor"), "Executor")
+REG.externs["asyncio.get_event_loop"] = lambda I, fn, a, k: SRef(fresh_ref("loop"), "EventLoop")
+
+
+@REG.extern_method("EventLoop.run_in_executor")
+def _run_in_executor(I, ref, args, kw):
+    """A-PY/asyncio: the awaited result of run_in_executor(executor, func, *args) is func(*args) (run on a worker thread
+    that touches only the authentication provider)."""
+    from pyvc.values import Coro
+
+    r = I.call_value(args[1], list(args[2:]), {})
+    return Coro(r.value if isinstance(r, Coro) else r)
+
+
+def token_or_empty(c, reply):
+    if reply is None or reply.fields["sec_trailer"] is None:
+        return SBytes(R.Rope())
+    return reply.fields["sec_trailer"].fields["auth_value"]
+
+
+@REG.extern_method("SpnegoContext.step")
+def _ctx_step(I, ref, args, kw):
+    """A-SPNEGO + monitor: step() / step(token) returns the next token (None or bytes). The monitor demands that the
+    client feeds the server's latest token (b"" when there is none) and has sent the previous output first."""
+    hs = I.ctx.ghost.get("hs")
+    tok = args[0] if args else kw.get("in_token")
+    site = I.site("step")
+    if hs is not None:
+        if hs["n_steps"] == 0:
+            I.ctx.prove(f"{site}.pre.first-step-has-no-input", tok is None or I.truth(tok) is False)
+        else:
+            want = hs["want_in"]
+            I.ctx.prove(f"{site}.pre.feeds-the-latest-server-token", tok is not None and I.eq(tok, want))
+            I.ctx.prove(f"{site}.pre.previous-token-was-sent", hs["sent"])
+            # no further leg once the security context is complete (the client must have looked, and seen "not complete")
+            I.ctx.prove(f"{site}.pre.context-not-complete", hs.get("complete") is not None and I._not(hs["complete"]))
+        hs["n_steps"] += 1
+    if I.branch(fresh_bool("step_fails")):
+        I.raise_("spnego.exceptions.SpnegoError")
+    if I.branch(fresh_bool("step_returns_none")):
+        out = None
+    else:
+        t = fresh_bytes("client_token")
+        I.ctx.assume(z3.And(blen(t) >= 0, blen(t) <= 0xFFFF))
+        out = SBytes(R.Rope([R.full_atom(t)]))
+    if hs is not None:
+        hs["last_out"] = out if out is not None else SBytes(R.Rope())  # the provider wrapper turns None into b""
+        hs["sent"] = (out is None) or I._not(I.truth(out))  # an empty token needs no sending
+    I.ctx.event("step", input=tok, output=out)
+    return out
+
+
+@REG.extern_attribute("SpnegoContext", "complete")
+def _ctx_complete(I, ref):
+    b = fresh_bool("ctx_complete")
+    hs = I.ctx.ghost.get("hs")
+    if hs is not None:
+        hs["complete"] = b
+    return b
+
+
+def bind_send_monitor(c, pdu, resp_type_name):
+    """call-mode contract of _send_pdu during a handshake"""
+    I = c.I
+    hs = c.ctx.ghost["hs"]
+    kind = pdu.cls.name
+    st = pdu.fields["sec_trailer"]
+    flags = Z(I.as_int(pdu.fields["header"].fields["packet_flags"]))
+    sign_bit = c.mod(c.div(flags, 4), 2) == 1
+    c.requires(kind == ("Bind" if hs["n_sent"] == 0 else "AlterContext"), "bind-first-then-alter-context")
+    if hs["auth"]:
+        c.requires(st is not None and c.eq(st.fields["auth_value"], hs["last_out"]) if hs["last_out"] is not None else False, "carries-the-token-just-produced")
+        c.requires(c.Or(c.Not(hs["sent"]), Z(c.len(hs["last_out"])) == 0) if hs["last_out"] is not None else False, "non-empty-token-not-sent-before")
+        if st is not None:
+            c.requires(Z(I.as_int(pdu.fields["header"].fields["auth_len"])) == Z(c.len(st.fields["auth_value"])), "auth_len-is-the-token-size")
+            c.requires(Z(I.as_int(st.fields["level"])) == 6, "PKT_PRIVACY")
+        c.requires(sign_bit == Z(hs["client_sign"]), "header-sign-flag-as-negotiated-so-far")
+    else:
+        c.requires(st is None, "no-trailer-without-authentication")
+    from .c_rpc import reply_object
+
+    reply = reply_object(c, resp_type_name)
+    rflags = Z(I.as_int(reply.fields["header"].fields["packet_flags"]))
+    rsign = c.mod(c.div(rflags, 4), 2) == 1
+
+    def eff():
+        hs["sent"] = True
+        hs["n_sent"] += 1
+        hs["last_reply"] = reply
+        hs["want_in"] = token_or_empty(c, reply)
+        hs["acks_sign"] = c.And(hs["acks_sign"], rsign)
+        hs["replies"].append(reply)
+        c.ctx.event("send_pdu", pdu_kind=kind, pdu=pdu, reply=reply)
+
+    c.effect(eff)
+    c.raises("ValueError", when=None)  # bind_nak, fault, unexpected type (C16 contract of _process_response), malformed reply
+    c.raises("ConnectionError", when=None)
+    c.raises("asyncio.IncompleteReadError", when=None)
+    c.raises("KeyError", when=None)
+    c.raises("IndexError", when=None)
+    c.raises("spnego.exceptions.SpnegoError", when=None)
+    c.returns(reply)
+
+
+def _bind_contract(flavour):
+    def spec(c):
+        I = c.I
+        self_ = c.param("self", sync_client() if flavour == "sync" else async_client())
+        auth = self_.fields["_auth"]
+        n_ctx = 1 + c.ctx.choose(2, "n_contexts")
+        from .c_rpc import context_fresh
+
+        contexts = [context_fresh(c, f"ctx{i}", 1) for i in range(n_ctx)]
+        c.param("contexts", T.const(contexts))
+        if auth is not None:
+            c.assume(c.Not(self_.fields["_sign_header"]))  # a fresh client (RpcClient.__init__)
+        hs = {"auth": auth is not None, "last_out": None, "sent": True, "last_reply": None, "want_in": SBytes(R.Rope()), "n_sent": 0, "n_steps": 0,
+              "acks_sign": True, "client_sign": True if auth is not None else False, "replies": []}
+        c.ctx.ghost["hs"] = hs
+        errs = {"ValueError", "KeyError", "IndexError", "ConnectionError", "asyncio.IncompleteReadError", "spnego.exceptions.SpnegoError"}
+        for e in errs:
+            c.raises(e, when=None)
+        c.raises_only(errs)
+
+        def done(r):
+            conj = [hs["n_sent"] >= 1, r is (hs["replies"][0] if hs["replies"] else None)]
+            # every token the provider produced went out (the last output was sent, or was empty)
+            conj.append(hs["sent"])
+            if auth is not None:
+                # header signing exactly when the client asked for it and every reply advertised it
+                conj.append(Z(self_.fields["_sign_header"]) == Z(hs["acks_sign"]))
+            return conj
+
+        c.ensures("first-ack-returned-all-tokens-sent-header-sign-iff-both-sides", done)
+        if auth is not None:
+            from .c_rpc import reply_object
+
+            def havoc_monitor(I_, s):
+                # an arbitrary later point of the handshake: some token was produced and sent, some reply received
+                t = fresh_bytes("client_token")
+                I_.ctx.assume(blen(t) >= 0)
+                rep = reply_object(c, "AlterContextResponse" if I_.ctx.branch(fresh_bool("later_leg")) else "BindAck")
+                hs["last_out"] = SBytes(R.Rope([R.full_atom(t)]))
+                hs["sent"] = True
+                hs["n_sent"] = 1 if rep.cls.name == "BindAck" else 2
+                hs["n_steps"] = 1
+                hs["last_reply"] = rep
+                hs["want_in"] = token_or_empty(c, rep)
+                hs["acks_sign"] = fresh_bool("acks_sign")
+                hs["replies"] = [hs["replies"][0] if hs["replies"] else rep]
+                hs["client_sign"] = hs["acks_sign"]
+                hs["complete"] = None
+                self_.fields["_sign_header"] = hs["acks_sign"]
+
+            def inv(s):
+                rep = hs["last_reply"]
+                tok = None if rep is None or rep.fields["sec_trailer"] is None else rep.fields["sec_trailer"].fields["auth_value"]
+                in_tok = s.in_token
+                same = (in_tok is None and tok is None) or (in_tok is not None and tok is not None and c.eq(in_tok, tok))
+                return [hs["sent"], same, Z(self_.fields["_sign_header"]) == Z(hs["acks_sign"]), hs["n_sent"] >= 1, s.bind_ack is hs["replies"][0]]
+
+            def havoc_in_token(I_, cur, s):
+                rep = hs["last_reply"]
+                return None if rep.fields["sec_trailer"] is None else rep.fields["sec_trailer"].fields["auth_value"]
+
+            c.loop(0, invariant=inv, havoc_heap=[havoc_monitor], havoc={"in_token": havoc_in_token, "sec_trailer": lambda I_, cur, s: cur,
+                                                                         "alter_context": lambda I_, cur, s: None, "alter_resp": lambda I_, cur, s: None,
+                                                                         "_": lambda I_, cur, s: None})
+
+    return spec
+
+
+REG.contract("dpapi_ng._rpc._client.SyncRpcClient.bind", props=["C15"])(_bind_contract("sync"))
+REG.contract("dpapi_ng._rpc._client.AsyncRpcClient.bind", props=["C15"])(_bind_contract("async"))
+
+
+@REG.contract("dpapi_ng._client._process_bind_result", props=["C15", "C17"])
+def process_bind_result(c):
+    """A request may only follow if the server ACCEPTED the presentation context the caller wants to use."""
+    from .c_rpc import context_fresh, result_fresh
+
+    if not c.verifying:
+        req = c.param("requested_contexts")
+        ack = c.param("bind_ack")
+        desired = c.param("desired_context")
+        c.raises("ValueError", when=None)
+        c.raises("IndexError", when=None)
+        c.effect(lambda: c.ctx.event("bind_result_checked", ack=ack, desired=desired, requested=req))
+        c.returns(None)
+        return
+    n_req = 1 + c.ctx.choose(2, "n_requested")
+    n_res = c.ctx.choose(4, "n_results")
+    requested = [context_fresh(c, f"req{i}", 1) for i in range(n_req)]
+    results = [result_fresh(c, f"res{i}") for i in range(n_res)]
+    ack = SObj(cls(c, "BindAck"), {"header": None, "sec_trailer": None, "max_xmit_frag": 0, "max_recv_frag": 0, "assoc_group": 0, "sec_addr": "", "results": results})
+    desired = c.fresh(U16, "desired_context")
+    c.param("requested_contexts", T.const(requested))
+    c.param("bind_ack", T.const(ack))
+    c.param("desired_context", T.const(desired))
+    accepted = c.Or(*[c.And(Z(c.I.as_int(results[i].fields["result"])) == 0, Z(requested[i].fields["context_id"]) == Z(desired)) for i in range(min(n_req, n_res))])
+    more_results_than_requested = n_res > n_req and c.Or(*[Z(c.I.as_int(results[i].fields["result"])) == 0 for i in range(n_req, n_res)])
+    c.raises("ValueError", when=c.And(c.Not(accepted), c.Not(more_results_than_requested)))
+    c.raises("IndexError", when=None, label="optional")  # an accepted result beyond the requested contexts (malformed ack)
+    c.raises_only({"ValueError", "IndexError"})
+    c.returns(None)
+    c.post("returns-only-if-the-desired-context-was-accepted", lambda: accepted)
